@@ -7,7 +7,8 @@
      <<"null">>  <<"n", k>> (number token k)  <<"s", str>>  <<"b", bool>>  <<"a", Seq(value)>>
      <<"o", Seq(<<key, value>>)>> with keys in increasing order (no duplicates in the modelled universe);
      <<"x", text>> is a number literal outside the small tokens (1.5, 1e21, ...) as written, or - in a recorded
-     observation - a value the recorder cannot carry (invalid JSON, nesting too deep); the decoder specification
+     observation, where numbers are tagged BY VALUE (1, 1.0, 1e0 are all <<"n", 1>>) - the canonical exact spelling of a
+     number that is not a small integer, or a value the recorder cannot carry (invalid JSON, nesting too deep); the decoder specification
      treats it as foreign, so that no value rule is ever based on it.
    Geometry = [t, l, body]; a coord is a Seq of number tokens; a nil multipoint member is NIL;
    NOGEOM is the nil geometry.  Layouts: "No","XY","XYZ","XYM","XYZM","L5","L6". *)
